@@ -19,6 +19,7 @@ UNIT_MAP = {
     'gc_roots': ['gc_roots'],
     'host_values': ['gc_roots'],
     'stdlib_natives': ['native_keys'],
+    'stdlib_reentry': ['callback_mutation'],
     'names': ['name_resolution'],
     'error_trace': ['error_trace'],
     'emission': ['decode_walk'],
@@ -34,8 +35,9 @@ UNIT_MAP = {
 }
 # (driver cyclic_table is deliberately absent: it replays the open C04 findings only -- on the pinned tree it always fails,
 # so a search with it would attach the known input to an unrelated violation)
-# drivers whose target may crash the process: the search leaves the current input in a file
-CRASH_PRONE = {'decode_walk', 'gc_roots', 'native_keys'}
+# every search leaves the input it is working on in a file (CAO_REPLAY_LAST), so a crash or a hang of the real code is
+# reported with the input that caused it; a whole search normally takes a few seconds
+SEARCH_TIMEOUT = 180
 _built = {}
 
 def build(repo, scratch):
@@ -71,17 +73,21 @@ def search_unit(repo, scratch, unit, seed, iters=30000):
     exe = build(repo, scratch)
     for drv in drivers:
         for s in (seed, seed + 1, seed + 2):
+            # the driver leaves the input it is working on in a file: if the real code crashes the process or does not
+            # come back, that input is the failing one
             last = os.path.join(scratch, 'replay-last-%s.txt' % drv)
-            if drv in CRASH_PRONE:
-                env = dict(os.environ, CAO_REPLAY_LAST=last)
-            else:
-                env = None
-            p = subprocess.run([exe, drv, 'search', str(s + 1), str(iters)], capture_output=True, text=True, timeout=900, env=env)
-            f = _parse_fail(p.stdout)
+            env = dict(os.environ, CAO_REPLAY_LAST=last)
+            hung = False
+            try:
+                p = subprocess.run([exe, drv, 'search', str(s + 1), str(iters)], capture_output=True, text=True, timeout=SEARCH_TIMEOUT, env=env)
+            except subprocess.TimeoutExpired:
+                hung = True
+                p = None
+            f = _parse_fail(p.stdout) if p is not None else None
             if f:
                 f['how_to_replay'] = 'bin/check <property> --replay <this file>  (re-runs: cao-replay %s replay %d %s)' % (drv, f['variant'], f['ops'])
                 return f
-            if p.returncode not in (0, 1):
+            if hung or p.returncode not in (0, 1):
                 # a crash / hang of the real code under the driver is itself a failing input
                 ops, variant = '', -1
                 try:
@@ -89,14 +95,24 @@ def search_unit(repo, scratch, unit, seed, iters=30000):
                     variant = int(variant)
                 except (OSError, ValueError):
                     pass
-                return dict(driver=drv, variant=variant, step=-1, ops=ops,
-                            observed='the real code terminated the process abnormally on this input (rc=%s, e.g. -11 = SIGSEGV): %s' % (p.returncode, (p.stderr or '')[-300:]),
+                what = ('the real code did not return within %d s on this input (a whole search of %d sequences takes seconds)' % (SEARCH_TIMEOUT, iters)) if hung else \
+                       ('the real code terminated the process abnormally on this input (rc=%s, e.g. -11 = SIGSEGV): %s' % (p.returncode, (p.stderr or '')[-300:]))
+                return dict(driver=drv, variant=variant, step=-1, ops=ops, observed=what,
                             how_to_replay='bin/check <property> --replay <this file>  (re-runs: cao-replay %s replay %d %s)' % (drv, variant, ops))
     return None
 
 def explore(repo, scratch, driver, seed, iters):
     exe = build(repo, scratch)
-    p = subprocess.run([exe, driver, 'search', str(seed + 11), str(iters)], capture_output=True, text=True, timeout=3600)
+    last = os.path.join(scratch, 'replay-last-%s.txt' % driver)
+    try:
+        p = subprocess.run([exe, driver, 'search', str(seed + 11), str(iters)], capture_output=True, text=True, timeout=3600,
+                           env=dict(os.environ, CAO_REPLAY_LAST=last))
+    except subprocess.TimeoutExpired:
+        try:
+            u, variant, ops = open(last).read().split(' ', 2)
+        except (OSError, ValueError):
+            variant, ops = -1, ''
+        return iters, dict(driver=driver, variant=int(variant), step=-1, ops=ops, observed='the real code did not return within an hour on this input')
     f = _parse_fail(p.stdout)
     return iters, f
 
@@ -115,7 +131,11 @@ def run_replay_file(repo, path):
     scratch = tempfile.mkdtemp(prefix='caoreplay-')
     try:
         exe = build(repo, scratch)
-        p = subprocess.run([exe, fi['driver'], 'replay', str(fi['variant']), fi['ops']], capture_output=True, text=True, timeout=600)
+        try:
+            p = subprocess.run([exe, fi['driver'], 'replay', str(fi['variant']), fi['ops']], capture_output=True, text=True, timeout=SEARCH_TIMEOUT)
+        except subprocess.TimeoutExpired:
+            print('the real code still does not return on this input (%d s)' % SEARCH_TIMEOUT)
+            return 1
         print(p.stdout.strip())
         return 1 if _parse_fail(p.stdout) or p.returncode not in (0,) else 0
     finally:
